@@ -249,6 +249,80 @@ def run_check(tier, seed):
                               dict(original=repr(t0), skeleton=gsk, error=msg), key='C08:erasure-rejected:' + level.split('+')[0])
         run.count(('erasure', gsk, tuple(sorted(ctx))), nontrivial=res is not None)
 
+    # ---- chains of unannotated binders whose types are fixed late and through each other: a higher-order binder applied
+    #      to an earlier one, the earlier one's (non-ground until the end) type determined only by a later conjunct
+    def binder_chain():
+        eq = lambda T: Const('equals', TFun(T, T, BoolType))
+        conj = Const('conj', TFun(BoolType, BoolType, BoolType))
+        zero, one = Const('zero', natT), Const('one', natT)
+        plus = Const('plus', TFun(natT, natT, natT))
+        T1 = r.choice([TFun(natT, natT), TFun(natT, natT, natT), TFun(TFun(natT, natT), natT), TFun(natT, BoolType)])
+        # a closed witness of type T1 with binders of its own
+        def wit(T, depth=0):
+            if T == natT:
+                return r.choice([zero, one, Comb(Comb(plus, one), one)])
+            if T == BoolType:
+                return Comb(Comb(eq(natT), zero), zero)
+            dom, rng = T.domain_type(), T.range_type()
+            body = wit(rng, depth + 1)
+            if dom == natT and rng == natT and r.random() < 0.6:
+                body = Comb(Comb(plus, Bound(0)), one)
+            return Abs('y%d' % depth, dom, body)
+        R = r.choice([natT, BoolType])
+        TG = TFun(T1, R)
+        # binders: x : T1 (index 1 under g), g : T1 => R (index 0); or the other order
+        x_first = r.random() < 0.6
+        X, G = (Bound(1), Bound(0)) if x_first else (Bound(0), Bound(1))
+        c1 = Comb(Comb(eq(R), Comb(G, X)), wit(R))
+        c2 = Comb(Comb(eq(T1), X), wit(T1))
+        parts = [c1, c2] if r.random() < 0.6 else [c2, c1]
+        if r.random() < 0.3:
+            parts.append(Comb(Comb(eq(R), Comb(G, wit(T1))), Comb(G, X)))
+        body = parts[-1]
+        for pt_ in reversed(parts[:-1]):
+            body = Comb(Comb(conj, pt_), body)
+        names = [('x', T1), ('g', TG)] if x_first else [('g', TG), ('x', T1)]
+        q = r.choice(['lam', 'all', 'ex'])
+        t = body
+        for nm, T in reversed(names):
+            ab = Abs(nm, T, t)
+            t = ab if q == 'lam' else Comb(Const('all' if q == 'all' else 'exists', TFun(TFun(T, BoolType), BoolType)), ab)
+        return t
+    for i in range(60 if tier == 'quick' else 800):
+        t0 = binder_chain()
+        try:
+            t0.checked_get_type()
+        except RecursionError:
+            raise
+        except Exception:
+            run.stat('chain:gen-ill-typed')
+            continue
+        # constants lose their types except the numerals (which anchor the overloaded / polymorphic ones), or all keep them
+        mode = r.choice(['numerals', 'numerals', 'all-consts'])
+
+        def er_chain(t):
+            if t.is_const():
+                return Const(t.name, t.T if (mode == 'all-consts' or t.name in ('zero', 'one')) else None)
+            if t.is_comb():
+                return Comb(er_chain(t.fun), er_chain(t.arg))
+            if t.is_abs():
+                return Abs(t.var_name, None, er_chain(t.body))
+            return Bound(t.n) if t.is_bound() else Var(t.name, None)
+        sk = er_chain(t0)
+        gsk = g_sk(sk)
+        res, err, msg = run_infer(sk, {})
+        run.stat('chain:%s' % ('ok' if res is not None else err))
+        if err and err != 'TypeInferenceException':
+            run.violation('property', 'type_infer fails with a foreign exception %s on a chain of unannotated binders' % err,
+                          dict(original=repr(t0), skeleton=gsk, error=msg), key='C08:foreign-exception:' + err)
+        if res is not None:
+            exprs.append('infer_diag %s [] [] %s %s' % (sig_expr(res), gsk, g_tm(res)))
+            meta.append((t0, gsk, {}, res, 'binder-chain', 'none'))
+            if repr(res) != repr(t0):
+                run.violation('property', 'inference on a fully determined chain of unannotated binders returns a different term',
+                              dict(original=repr(t0), skeleton=gsk, result=repr(res)), key='C08:not-recovered:binder-chain')
+        run.count(('chain', gsk), nontrivial=res is not None)
+
     # ---- ill-typed skeletons
     x, f = lambda: Var('x', None), lambda: Var('f', None)
     bad = [
